@@ -238,7 +238,7 @@ def explore_job(run_fn: Callable, params: dict, max_paths: int = 20000, max_seco
             res.notes.setdefault(k, v)
         # ---- twin run -----------------------------------------------------------------------
         try:
-            if twin and (res.paths % twin_every == 0 or ctx.violations):
+            if twin and ((res.paths - 1) % twin_every == 0 or ctx.violations):
                 model = ctx.path_model()
                 exact = _on_grid(model)
                 try:
